@@ -1212,7 +1212,7 @@ func (s *ShapeIndex) makeIndexCell(p *PaddedCell, edges []*clippedEdge, t *track
 	for i := 0; i < numShapes; i++ {
 		var clipped *clippedShape
 		// advance to next value base + i
-		eshapeID := int32(s.Len())
+		eshapeID := s.nextID
 		cshapeID := eshapeID // Sentinels
 
 		if eNext != len(edges) {
